@@ -52,6 +52,30 @@ fn chain_buffer(buf: &[u8], chain: &[(usize, usize)]) -> Option<ParseBuffer> {
     Some(cur)
 }
 
+// Buffer word of a case: lower-case hex (`-` = empty) or the descriptor `#N` = the N-byte PATTERN buffer whose
+// byte number i is (7*i + 3 + i/256) mod 256: neighbouring positions differ, and so do positions 256 apart, so a
+// window read at a wrong offset shows in the value (N up to 2^25; keeps the lines of the remaining-length
+// sweep short: buffers of 2^16 and 2^24 bytes).
+const PAT_MAX: usize = 1 << 25;
+
+fn pat_byte(i: usize) -> u8 { (7 * i + 3 + (i >> 8)) as u8 }
+
+fn buf_of(w: &str) -> Option<Vec<u8>> {
+    match w.strip_prefix('#') {
+        Some(n) => {
+            if n.is_empty() || !n.bytes().all(|c| c.is_ascii_digit()) {
+                return None
+            }
+            let n: usize = n.parse().ok()?;
+            if n > PAT_MAX {
+                return None
+            }
+            Some((0 .. n).map(pat_byte).collect())
+        },
+        None => Some(unhex(w)),
+    }
+}
+
 // ONE parser object, owned by the returned closure: every call of the closure is a parse() on that same
 // object.  `arg` is the byte order (integer parsers) or the decimal length (ByteVecP).
 fn mk_parser(kind: &str, arg: &str) -> Option<Box<dyn FnMut(&mut ParseBuffer) -> String>> {
@@ -105,7 +129,7 @@ fn run_seq(w: &[&str]) -> Option<String> {
             Some((h, c)) => (h, parse_chain(c)?),
             None => (b, Vec::new()),
         };
-        let bytes = unhex(hx);
+        let bytes = buf_of(hx)?;
         bufs.push(if chain.is_empty() { ParseBuffer::new(bytes) } else { chain_buffer(&bytes, &chain)? });
     }
     let mut outs: Vec<String> = Vec::new();
@@ -137,7 +161,10 @@ pub fn run(line: &str) -> String {
     if w.len() != 4 && w.len() != 5 {
         return "bad-case".to_string()
     }
-    let buf = unhex(w[2]);
+    let buf = match buf_of(w[2]) {
+        Some(b) => b,
+        None => return "bad-case".to_string(),
+    };
     let pos: usize = match w[3].parse() {
         Ok(p) => p,
         Err(_) => return "bad-case".to_string(),
